@@ -39,6 +39,19 @@ structure Grows (w w' : World) : Prop where
   size : ∀ fid, sz w fid ≤ sz w' fid
   nsrc : w'.nsrc = w.nsrc
 
+/-- the scripted syscall results are only consumed (the rest of a schedule is a
+    suffix of it); the upload-dir configuration stays -/
+structure Calm (w w' : World) : Prop where
+  ws : w'.wsched <:+ w.wsched
+  ms : w'.msched <:+ w.msched
+  nd : w'.ndirs = w.ndirs
+  dt : w'.defTempSize = w.defTempSize
+
+theorem Calm.refl (w : World) : Calm w w := ⟨List.suffix_refl _, List.suffix_refl _, rfl, rfl⟩
+
+theorem Calm.trans {a b c : World} (h1 : Calm a b) (h2 : Calm b c) : Calm a c :=
+  ⟨h2.ws.trans h1.ws, h2.ms.trans h1.ms, h2.nd.trans h1.nd, h2.dt.trans h1.dt⟩
+
 /-- no file content changed (descriptors, names, pools, schedules may have) -/
 structure SameFiles (w w' : World) : Prop where
   nfiles : w'.nfiles = w.nfiles
@@ -47,11 +60,14 @@ structure SameFiles (w w' : World) : Prop where
   /-- a file's name count (and the ghost of its owning chunk) stays, or the name goes away -/
   own : ∀ fid, ((w'.files fid).nlink = (w.files fid).nlink ∧ (w'.files fid).tl = (w.files fid).tl) ∨
     (w'.files fid).nlink < (w.files fid).nlink
+  calm : Calm w w'
 
-theorem SameFiles.refl (w : World) : SameFiles w w := ⟨rfl, fun _ => rfl, fun _ => Or.inl ⟨rfl, rfl⟩⟩
+theorem SameFiles.refl (w : World) : SameFiles w w :=
+  ⟨rfl, rfl, fun _ => rfl, fun _ => Or.inl ⟨rfl, rfl⟩, ⟨List.suffix_refl _, List.suffix_refl _, rfl, rfl⟩⟩
 
 theorem SameFiles.trans {a b c : World} (h1 : SameFiles a b) (h2 : SameFiles b c) : SameFiles a c := by
-  refine ⟨h2.nfiles.trans h1.nfiles, fun fid => (h2.content fid).trans (h1.content fid), fun fid => ?_⟩
+  refine ⟨h2.nfiles.trans h1.nfiles, h2.nsrc.trans h1.nsrc, fun fid => (h2.content fid).trans (h1.content fid), fun fid => ?_,
+    h1.calm.trans h2.calm⟩
   rcases h1.own fid with ⟨a1, a2⟩ | a1 <;> rcases h2.own fid with ⟨b1, b2⟩ | b1
   · exact Or.inl ⟨b1.trans a1, b2.trans a2⟩
   · exact Or.inr (by omega)
@@ -62,7 +78,7 @@ theorem SameFiles.sz {w w' : World} (h : SameFiles w w') (fid : Nat) : sz w' fid
   simp [Cq.sz, h.content fid]
 
 theorem SameFiles.grows {w w' : World} (h : SameFiles w w') : Grows w w' :=
-  ⟨by rw [h.nfiles]; exact Nat.le_refl _, fun fid => by rw [h.sz fid]; exact Nat.le_refl _⟩
+  ⟨by rw [h.nfiles]; exact Nat.le_refl _, fun fid => by rw [h.sz fid]; exact Nat.le_refl _, h.nsrc⟩
 
 theorem SameFiles.fresh {w w' : World} (h : SameFiles w w') (hf : Fresh w) : Fresh w' := by
   intro fid hle
@@ -72,14 +88,38 @@ theorem SameFiles.fresh {w w' : World} (h : SameFiles w w') (hf : Fresh w) : Fre
 theorem Grows.refl (w : World) : Grows w w := (SameFiles.refl w).grows
 
 theorem Grows.trans {a b c : World} (h1 : Grows a b) (h2 : Grows b c) : Grows a c :=
-  ⟨Nat.le_trans h1.nfiles h2.nfiles, fun fid => Nat.le_trans (h1.size fid) (h2.size fid)⟩
+  ⟨Nat.le_trans h1.nfiles h2.nfiles, fun fid => Nat.le_trans (h1.size fid) (h2.size fid), h2.nsrc.trans h1.nsrc⟩
 
 theorem Chunk.Valid.mono {w w' : World} {c : Chunk} (h : c.Valid w) (g : Grows w w') : c.Valid w' := by
   cases c with
   | mem => exact h
   | file fid off len t fd =>
-    obtain ⟨h1, h2, h3⟩ := h
-    exact ⟨Nat.lt_of_lt_of_le h1 g.nfiles, h2, Nat.le_trans h3 (g.size fid)⟩
+    obtain ⟨h1, h2, h3, h4⟩ := h
+    exact ⟨Nat.lt_of_lt_of_le h1 g.nfiles, h2, Nat.le_trans h3 (g.size fid), by rw [g.nsrc]; exact h4⟩
+
+/-- the descriptor of a valid file chunk may be replaced by one that is open
+    whenever the old one was -/
+theorem Chunk.Valid.setFd {w : World} {fid off len : Nat} {t : Bool} {fd fd' : Fd}
+    (h : (Chunk.file fid off len t fd).Valid w) (hfd : fd.isOpen = true → fd'.isOpen = true) :
+    (Chunk.file fid off len t fd').Valid w := by
+  obtain ⟨h1, h2, h3, h4⟩ := h
+  refine ⟨h1, h2, h3, ?_⟩
+  rcases h4 with h4 | h4
+  · exact Or.inl (hfd h4)
+  · exact Or.inr h4
+
+/-- chunkqueue_dup_file_chunk_fd(): the copy of a readable chunk is readable -/
+theorem dupFd_readable {w : World} {fid : Nat} {t : Bool} {fd : Fd}
+    (h : fd.isOpen = true ∨ t = true ∨ fid < w.nsrc) :
+    (dupFd t fd).isOpen = true ∨ false = true ∨ fid < w.nsrc := by
+  unfold dupFd
+  rcases h with h | h | h
+  · rw [if_pos h]; exact Or.inl h
+  · subst h
+    split
+    · rename_i h; exact Or.inl h
+    · exact Or.inl rfl
+  · exact Or.inr (Or.inr h)
 
 theorem ValidAll.mono {w w' : World} {cs : List Chunk} (h : ValidAll w cs) (g : Grows w w') :
     ValidAll w' cs := fun c hc => (h c hc).mono g
@@ -154,7 +194,11 @@ theorem valid_setLast {w : World} {cs : List Chunk} {c : Chunk} (hw : ValidAll w
 
 theorem Chunk.rem_adv {w : World} {c : Chunk} {n : Nat} (hn : n ≤ c.rem) (hw : c.Valid w) :
     (c.adv n).rem = c.rem - n ∧ (c.adv n).Valid w := by
-  cases c <;> simp only [Chunk.adv, Chunk.rem, Chunk.Valid] at * <;> omega
+  cases c with
+  | mem => simp only [Chunk.adv, Chunk.rem, Chunk.Valid] at *; omega
+  | file fid off len t fd =>
+    simp only [Chunk.adv, Chunk.rem, Chunk.Valid] at *
+    exact ⟨by omega, hw.1, by omega, by omega, hw.2.2.2⟩
 
 theorem mem_chunk_valid (w : World) (d : Bytes) (cap : Nat) : (Chunk.mem d 0 cap).Valid w := by
   simp [Chunk.Valid]
@@ -174,7 +218,7 @@ theorem setFile_files_other (w : World) {fid i : Nat} (f : File) (h : i ≠ fid)
 theorem setFile_sameFiles (w : World) (fid : Nat) (f : File) (h : f.content = (w.files fid).content)
     (ho : (f.nlink = (w.files fid).nlink ∧ f.tl = (w.files fid).tl) ∨ f.nlink < (w.files fid).nlink) :
     SameFiles w (w.setFile fid f) := by
-  refine ⟨rfl, fun i => ?_, fun i => ?_⟩
+  refine ⟨rfl, rfl, fun i => ?_, fun i => ?_, ⟨List.suffix_refl _, List.suffix_refl _, rfl, rfl⟩⟩
   · by_cases hi : i = fid
     · subst hi; simp [h]
     · rw [setFile_files_other w f hi]
@@ -194,10 +238,10 @@ theorem unlink_same (w : World) (fid len : Nat) : SameFiles w (w.unlink fid len)
 theorem pushOversized_same (w : World) (n : Nat) : SameFiles w (pushOversized w n) := by
   unfold pushOversized
   split
-  · exact ⟨rfl, fun _ => rfl, fun _ => Or.inl ⟨rfl, rfl⟩⟩
+  · exact ⟨rfl, rfl, fun _ => rfl, fun _ => Or.inl ⟨rfl, rfl⟩, ⟨List.suffix_refl _, List.suffix_refl _, rfl, rfl⟩⟩
   · split
     · split
-      · exact ⟨rfl, fun _ => rfl, fun _ => Or.inl ⟨rfl, rfl⟩⟩
+      · exact ⟨rfl, rfl, fun _ => rfl, fun _ => Or.inl ⟨rfl, rfl⟩, ⟨List.suffix_refl _, List.suffix_refl _, rfl, rfl⟩⟩
       · exact SameFiles.refl w
     · exact SameFiles.refl w
 
@@ -208,7 +252,7 @@ theorem acquire_same (w : World) (n : Nat) : SameFiles w (acquire w n).1 := by
   · split
     · dsimp only
       split
-      · exact ⟨rfl, fun _ => rfl, fun _ => Or.inl ⟨rfl, rfl⟩⟩
+      · exact ⟨rfl, rfl, fun _ => rfl, fun _ => Or.inl ⟨rfl, rfl⟩, ⟨List.suffix_refl _, List.suffix_refl _, rfl, rfl⟩⟩
       · exact SameFiles.refl w
     · exact SameFiles.refl w
 
@@ -237,10 +281,20 @@ theorem releaseAll_same (w : World) (cs : List Chunk) : SameFiles w (releaseAll 
   | cons c cs ih => exact (release_same w c).trans (ih _)
 
 theorem popM_same (w : World) : SameFiles w (popM w).1 := by
-  unfold popM; split <;> exact ⟨rfl, fun _ => rfl, fun _ => Or.inl ⟨rfl, rfl⟩⟩
+  unfold popM
+  split
+  · exact SameFiles.refl w
+  · rename_i f t hm
+    exact ⟨rfl, rfl, fun _ => rfl, fun _ => Or.inl ⟨rfl, rfl⟩,
+      List.suffix_refl _, by rw [hm]; exact List.suffix_cons f t, rfl, rfl⟩
 
 theorem popW_same (w : World) : SameFiles w (popW w).1 := by
-  unfold popW; split <;> exact ⟨rfl, fun _ => rfl, fun _ => Or.inl ⟨rfl, rfl⟩⟩
+  unfold popW
+  split
+  · exact SameFiles.refl w
+  · rename_i f t hm
+    exact ⟨rfl, rfl, fun _ => rfl, fun _ => Or.inl ⟨rfl, rfl⟩,
+      by rw [hm]; exact List.suffix_cons f t, List.suffix_refl _, rfl, rfl⟩
 
 /-! ## append family -/
 
@@ -379,7 +433,7 @@ theorem getUseMemory_spec (w : World) (q : Cq) (req : Nat) (data : Bytes) :
 
 theorem appendFile_spec (w : World) (q : Cq) (fid off len : Nat) (fd : Bool) :
     SameFiles w (appendFile w q fid off len fd).1 ∧
-      (QV w q → fid < w.nfiles → off + len ≤ sz w fid →
+      (QV w q → fid < w.nfiles → fid < w.nsrc → off + len ≤ sz w fid →
         QV (appendFile w q fid off len fd).1 (appendFile w q fid off len fd).2) := by
   unfold appendFile
   split
@@ -387,10 +441,11 @@ theorem appendFile_spec (w : World) (q : Cq) (fid off len : Nat) (fd : Bool) :
       split
       · exact openFd_same w fid
       · exact SameFiles.refl w
-    refine ⟨hs, fun hq h1 h2 => pushChunk_qv (hq.mono hs.grows) ?_ (by simp [Chunk.rem])⟩
+    refine ⟨hs, fun hq h1 h1' h2 => pushChunk_qv (hq.mono hs.grows) ?_ (by simp [Chunk.rem])⟩
     simp only [Chunk.Valid]
-    exact ⟨by rw [hs.nfiles]; exact h1, by omega, by rw [hs.sz]; exact h2⟩
-  · exact ⟨SameFiles.refl w, fun hq _ _ => hq⟩
+    exact ⟨by rw [hs.nfiles]; exact h1, by omega, by rw [hs.sz]; exact h2,
+      Or.inr (Or.inr (by rw [hs.nsrc]; exact h1'))⟩
+  · exact ⟨SameFiles.refl w, fun hq _ _ _ => hq⟩
 
 theorem appendChunkqueue_qv {w : World} {dest src : Cq} (hd : QV w dest) (hs : QV w src) :
     QV w (appendChunkqueue dest src).1 ∧ QV w (appendChunkqueue dest src).2 := by
@@ -962,14 +1017,14 @@ theorem stealPartial_spec (w : World) (dest : Cq) (c : Chunk) (n : Nat) :
   | file fid off len t fd =>
     simp only [stealPartial]
     split
-    · have hs : SameFiles w (if fd.isOpen = true then w.openFd fid else w) := by
+    · have hs : SameFiles w (if (dupFd t fd).isOpen = true then w.openFd fid else w) := by
         split
         · exact openFd_same w fid
         · exact SameFiles.refl w
       refine ⟨hs, fun hd hv hn => ⟨pushChunk_qv (hd.mono hs.grows) ?_ (by simp [Chunk.rem]), ?_⟩⟩
       · simp only [Chunk.Valid, Chunk.rem] at hv hn ⊢
-        refine ⟨by rw [hs.nfiles]; exact hv.1, by omega, ?_⟩
-        rw [hs.sz]; omega
+        refine ⟨by rw [hs.nfiles]; exact hv.1, by omega, by rw [hs.sz]; omega, ?_⟩
+        rw [hs.nsrc]; exact dupFd_readable hv.2.2.2
       · simp only [Chunk.rem] at hn
         rw [pushChunk_abs]
         simp only [Chunk.content, List.take_take]
@@ -1116,6 +1171,13 @@ theorem peekChunk_spec {w : World} {n : Nat} {acc : Bytes} {c : Chunk} {w1 : Wor
       rw [this]
   | file fid off len t fd =>
     simp only [peekChunk] at h
+    have hfd : ∀ {w2 : World} {fd2 : Fd} {b : Bool},
+        (if fd.isOpen = true then (w, fd, true) else openChunk w fid len t) = (w2, fd2, b) →
+        fd.isOpen = true → fd2.isOpen = true := by
+      intro w2 fd2 b heq ho
+      rw [if_pos ho] at heq
+      simp only [Prod.mk.injEq] at heq
+      rw [← heq.2.1]; exact ho
     have hopen : SameFiles w (if fd.isOpen = true then (w, fd, true) else openChunk w fid len t).1 := by
       split
       · exact SameFiles.refl w
@@ -1125,22 +1187,22 @@ theorem peekChunk_spec {w : World} {n : Nat} {acc : Bytes} {c : Chunk} {w1 : Wor
       rw [heq] at hopen
       simp only [Prod.mk.injEq] at h
       obtain ⟨rfl, rfl, rfl, rfl⟩ := h
-      exact ⟨hopen, fun hv => ⟨hv, rfl, rfl, fun h => by cases h⟩⟩
+      exact ⟨hopen, fun hv => ⟨hv.setFd (hfd heq), rfl, rfl, fun h => by cases h⟩⟩
     · rename_i w2 fd2 heq
       rw [heq] at hopen
       split at h
       · rename_i h0
         simp only [Prod.mk.injEq] at h
         obtain ⟨rfl, rfl, rfl, rfl⟩ := h
-        exact ⟨hopen, fun hv => ⟨hv, rfl, rfl, fun _ => by simp [Chunk.content, h0]⟩⟩
+        exact ⟨hopen, fun hv => ⟨hv.setFd (hfd heq), rfl, rfl, fun _ => by simp [Chunk.content, h0]⟩⟩
       · split at h
         · simp only [Prod.mk.injEq] at h
           obtain ⟨rfl, rfl, rfl, rfl⟩ := h
-          exact ⟨hopen, fun hv => ⟨hv, rfl, rfl, fun h => by cases h⟩⟩
+          exact ⟨hopen, fun hv => ⟨hv.setFd (hfd heq), rfl, rfl, fun h => by cases h⟩⟩
         · simp only [Prod.mk.injEq] at h
           obtain ⟨rfl, rfl, rfl, rfl⟩ := h
           have hopen' : SameFiles w w2 := hopen
-          refine ⟨hopen, fun hv => ⟨hv, rfl, rfl, fun _ => ?_⟩⟩
+          refine ⟨hopen, fun hv => ⟨hv.setFd (hfd heq), rfl, rfl, fun _ => ?_⟩⟩
           simp only [Chunk.content, hopen'.content, List.take_take]
           congr 2
           exact Nat.min_comm _ _
@@ -1177,7 +1239,7 @@ theorem peekLoop_spec (w : World) (n : Nat) (acc : Bytes) (cs : List Chunk) :
     refine ⟨hs.trans hs2, fun hv => ?_⟩
     obtain ⟨c1, c2, c3, c4⟩ := hc hv.head
     obtain ⟨i1, i2, i3, i4⟩ := hi (hv.tail.mono hs.grows)
-    have g1 : Grows w1 w := ⟨by rw [hs.nfiles]; exact Nat.le_refl _, fun fid => by rw [hs.sz]; exact Nat.le_refl _⟩
+    have g1 : Grows w1 w := ⟨by rw [hs.nfiles]; exact Nat.le_refl _, fun fid => by rw [hs.sz]; exact Nat.le_refl _, hs.nsrc.symm⟩
     simp only [absChunks_same hs] at i3 i4
     simp only at i1 i2 i3 i4 hn ⊢
     refine ⟨ValidAll.cons c1 (i1.mono g1), by simp [c2, i2], by simp [c3, i3], fun hok hle => ?_⟩
@@ -1337,14 +1399,14 @@ theorem copyRange_spec (w : World) (dst : Cq) (c : Chunk) (off n : Nat) :
     simpa [Chunk.content, Nat.add_comm] using this
   | file fid coff len t fd =>
     simp only [copyRange]
-    have hs : SameFiles w (if fd.isOpen = true then w.openFd fid else w) := by
+    have hs : SameFiles w (if (dupFd t fd).isOpen = true then w.openFd fid else w) := by
       split
       · exact openFd_same w fid
       · exact SameFiles.refl w
     refine ⟨hs, fun hd hv hn => ⟨pushChunk_qv (hd.mono hs.grows) ?_ (by simp [Chunk.rem]), ?_⟩⟩
     · simp only [Chunk.Valid, Chunk.rem] at hv hn ⊢
-      refine ⟨by rw [hs.nfiles]; exact hv.1, by omega, ?_⟩
-      rw [hs.sz]; omega
+      refine ⟨by rw [hs.nfiles]; exact hv.1, by omega, by rw [hs.sz]; omega, ?_⟩
+      rw [hs.nsrc]; exact dupFd_readable hv.2.2.2
     · simp only [Chunk.rem] at hn
       rw [pushChunk_abs]
       simp only [Chunk.content, List.drop_take, List.take_take, List.drop_drop]
@@ -1427,7 +1489,7 @@ theorem createTemp_spec (w : World) (dir : Nat) (hf : Fresh w) :
     Fresh (createTemp w dir).1 ∧ Grows w (createTemp w dir).1 ∧
       (createTemp w dir).2 < (createTemp w dir).1.nfiles ∧ sz (createTemp w dir).1 (createTemp w dir).2 = 0 := by
   simp only [createTemp]
-  refine ⟨fun fid hle => ?_, ⟨Nat.le_succ _, fun i => ?_⟩, Nat.lt_succ_self _, ?_⟩
+  refine ⟨fun fid hle => ?_, ⟨Nat.le_succ _, fun i => ?_, rfl⟩, Nat.lt_succ_self _, ?_⟩
   · rw [sz_addFile]
     have hle' : w.nfiles + 1 ≤ fid := hle
     split
@@ -1506,20 +1568,20 @@ theorem newTempfile_spec {w : World} {q : Cq} {w' : World} {q' : Cq} {ok : Bool}
       exact ⟨a, hp.grows.trans b, pushNewTemp_qv (idx := q.tdIdx) (hq.mono (hp.grows.trans b)) c⟩
 
 theorem setLast_fd_qv {w : World} {q : Cq} {fid off len : Nat} {t : Bool} {fd fd' : Fd} (hq : QV w q)
-    (hl : q.chunks.getLast? = some (.file fid off len t fd)) :
+    (hl : q.chunks.getLast? = some (.file fid off len t fd)) (ht : t = true) :
     QV w { q with chunks := setLast q.chunks (.file fid off len t fd') } := by
   have hv := valid_last hq.valid hl
   have hr := remSum_last hl
-  refine ⟨valid_setLast hq.valid hv, ?_⟩
+  refine ⟨valid_setLast hq.valid ⟨hv.1, hv.2.1, hv.2.2.1, Or.inr (Or.inl ht)⟩, ?_⟩
   have := hq.len
   simp only [remSum_setLast, Chunk.rem] at *
   omega
 
 theorem closeLast_tstep {w : World} {q : Cq} {fid off len : Nat} {t : Bool} {fd : Fd}
-    (hl : q.chunks.getLast? = some (.file fid off len t fd)) :
+    (hl : q.chunks.getLast? = some (.file fid off len t fd)) (ht : t = true) :
     TStep w q (w.closeFd fid) { q with chunks := setLast q.chunks (.file fid off len t .none) } :=
   fun hf hq => ⟨(closeFd_same w fid).fresh hf, (closeFd_same w fid).grows,
-    (setLast_fd_qv hq hl).mono (closeFd_same w fid).grows⟩
+    (setLast_fd_qv hq hl ht).mono (closeFd_same w fid).grows⟩
 
 theorem getAppendTempfile_spec {w : World} {q : Cq} {w' : World} {q' : Cq} {ok : Bool}
     (h : getAppendTempfile w q = (w', q', ok)) : TStep w q w' q' := by
@@ -1531,7 +1593,7 @@ theorem getAppendTempfile_spec {w : World} {q : Cq} {w' : World} {q' : Cq} {ok :
       · simp only [Prod.mk.injEq] at h
         obtain ⟨rfl, rfl, rfl⟩ := h
         exact TStep.refl _ _
-      · exact (closeLast_tstep hl).trans (newTempfile_spec h)
+      · exact (closeLast_tstep hl rfl).trans (newTempfile_spec h)
     · exact newTempfile_spec h
   · exact newTempfile_spec h
 
@@ -1547,14 +1609,12 @@ theorem dropOrCloseLast_spec (w : World) (q : Cq) : QStep w q (dropOrCloseLast w
   · rename_i c hl
     split
     · exact removeEmpty_spec w q
-    · cases c with
-      | mem d off cap => exact QStep.mk' (SameFiles.refl w) id
-      | file fid off len t fd =>
-        dsimp only
-        split
-        · exact QStep.mk' (closeFd_same w fid) fun hq =>
-            (setLast_fd_qv hq hl).mono (closeFd_same w fid).grows
+    · split
+      · split
+        · exact QStep.mk' (closeFd_same w _) fun hq =>
+            (setLast_fd_qv hq hl rfl).mono (closeFd_same w _).grows
         · exact QStep.mk' (SameFiles.refl w) id
+      · exact QStep.mk' (SameFiles.refl w) id
   · exact QStep.mk' (SameFiles.refl w) id
 
 theorem tempfileErr_spec {w : World} {q : Cq} {e : Bool} {w' : World} {q' : Cq} {r : Bool}
@@ -1583,7 +1643,7 @@ theorem sz_pwrite_other (w : World) {fid i : Nat} (pos : Nat) (d : Bytes) (h : i
   simp [World.pwrite, sz, setFile_files_other w _ h]
 
 theorem pwrite_grows (w : World) (fid pos : Nat) (d : Bytes) : Grows w (w.pwrite fid pos d) := by
-  refine ⟨Nat.le_refl _, fun i => ?_⟩
+  refine ⟨Nat.le_refl _, fun i => ?_, rfl⟩
   by_cases hi : i = fid
   · subst hi
     rw [sz_pwrite_same, writeAt_length]
@@ -1604,7 +1664,7 @@ theorem sz_addTl (w : World) (fid : Nat) (n : Int) (i : Nat) : sz (w.addTl fid n
   · simp [sz, World.addTl, setFile_files_other w _ hi]
 
 theorem addTl_grows (w : World) (fid : Nat) (n : Int) : Grows w (w.addTl fid n) :=
-  ⟨Nat.le_refl _, fun i => by rw [sz_addTl]; exact Nat.le_refl _⟩
+  ⟨Nat.le_refl _, fun i => by rw [sz_addTl]; exact Nat.le_refl _, rfl⟩
 
 theorem addTl_fresh {w : World} (fid : Nat) (n : Int) (hf : Fresh w) : Fresh (w.addTl fid n) :=
   fun i hle => by rw [sz_addTl]; exact hf i hle
@@ -1625,9 +1685,9 @@ theorem writeGrow_spec (w : World) (q : Cq) (d : Bytes) :
     have hlen := hq.len
     refine ⟨valid_setLast (hq.valid.mono hg) ?_, ?_⟩
     · simp only [Chunk.Valid]
-      refine ⟨hv.1, by omega, ?_⟩
+      refine ⟨hv.1, by omega, ?_, hv.2.2.2⟩
       rw [sz_addTl, sz_pwrite_same, writeAt_length]
-      have := hv.2.2
+      have := hv.2.2.1
       simp only [sz] at this
       omega
     · simp only [remSum_setLast, Chunk.rem] at *
@@ -2002,7 +2062,7 @@ structure Inv (s : Sys) : Prop where
 /-- obligations of the caller that the model does not check itself: a file
     range handed to chunkqueue_append_file*() lies inside an existing file -/
 def OpOK (s : Sys) : Op → Prop
-  | .appendFile _ fid off len _ => fid < s.w.nfiles ∧ off + len ≤ sz s.w fid
+  | .appendFile _ fid off len _ => fid < s.w.nfiles ∧ fid < s.w.nsrc ∧ off + len ≤ sz s.w fid
   | _ => True
 
 theorem Inv.get {s : Sys} (h : Inv s) (i : Bool) : QV s.w (s.get i) := by
@@ -2045,7 +2105,7 @@ theorem step_inv (s : Sys) (op : Op) (h : Inv s) (hop : OpOK s op) : Inv (step s
   | getUseMemory qi req d => exact inv_same h qi (getUseMemory_spec s.w (s.get qi) req d)
   | appendFile qi fid off len fd =>
     obtain ⟨a, b⟩ := appendFile_spec s.w (s.get qi) fid off len fd
-    exact inv_same h qi (QStep.mk' a fun hq => b hq hop.1 hop.2)
+    exact inv_same h qi (QStep.mk' a fun hq => b hq hop.1 hop.2.1 hop.2.2)
   | appendChunkqueue qi =>
     obtain ⟨a, b⟩ := appendChunkqueue_qv (h.get qi) (h.get (!qi))
     exact inv_pair (s := s) qi h.fresh a b
